@@ -105,22 +105,33 @@ json guarded(const char* stage, F f)
 } // namespace
 
 // {"op":"bddincl","A","B"} -> verdict per selection: "T"/"F", "N" (NotImplementedException), "X:<type>" (other exception)
+template <class Aut>
+Aut mkSecond(const Aut& a, const json& jb, const std::string& bmode)
+{
+	if (bmode == "copy" || bmode == "alias") { return Aut(a); }
+	Aut b;
+	loadBdd(b, jb);
+	return b;
+}
+
 VDRIVE_OP(bddincl)
 {
 	const json& ja = c.at("A");
 	const json& jb = c.at("B");
 	json v = json::object();
+	// "bmode": "alias" = the same object as both operands, "copy" = a copy of A (sharing its table) as second operand (value B = A)
+	std::string bmode = c.value("bmode", "");
 	// bottom-up encoding
-	v["bu_up"] = guarded("bu_up", [&] { BU a, b; loadBdd(a, ja); loadBdd(b, jb); return BU::CheckInclusion(a, b, mkParam(false, false, false, false)); });
-	v["bu_dr_sim"] = guarded("bu_dr_sim", [&] { BU a, b; loadBdd(a, ja); loadBdd(b, jb); return BU::CheckInclusion(a, b, mkParam(true, true, false, true)); });
+	v["bu_up"] = guarded("bu_up", [&] { BU a; loadBdd(a, ja); BU bc = mkSecond(a, jb, bmode); const BU& b = (bmode == "alias") ? a : bc; return BU::CheckInclusion(a, b, mkParam(false, false, false, false)); });
+	v["bu_dr_sim"] = guarded("bu_dr_sim", [&] { BU a; loadBdd(a, ja); BU bc = mkSecond(a, jb, bmode); const BU& b = (bmode == "alias") ? a : bc; return BU::CheckInclusion(a, b, mkParam(true, true, false, true)); });
 	// top-down encoding
-	v["td_dr"] = guarded("td_dr", [&] { TD a, b; loadBdd(a, ja); loadBdd(b, jb); return TD::CheckInclusion(a, b, mkParam(true, true, false, false)); });
-	v["td_dro"] = guarded("td_dro", [&] { TD a, b; loadBdd(a, ja); loadBdd(b, jb); return TD::CheckInclusion(a, b, mkParam(true, true, true, false)); });
+	v["td_dr"] = guarded("td_dr", [&] { TD a; loadBdd(a, ja); TD bc = mkSecond(a, jb, bmode); const TD& b = (bmode == "alias") ? a : bc; return TD::CheckInclusion(a, b, mkParam(true, true, false, false)); });
+	v["td_dro"] = guarded("td_dro", [&] { TD a; loadBdd(a, ja); TD bc = mkSecond(a, jb, bmode); const TD& b = (bmode == "alias") ? a : bc; return TD::CheckInclusion(a, b, mkParam(true, true, true, false)); });
 	// top-down with simulation: the relation is computed the way bdd_bu_tree_aut_incl.cc does it
 	for (int opt = 0; opt < 2; ++opt)
 	{
 		v[opt ? "td_dro_sim" : "td_dr_sim"] = guarded(opt ? "td_dro_sim" : "td_dr_sim", [&] {
-			BU a, b; loadBdd(a, ja); loadBdd(b, jb);
+			BU a; loadBdd(a, ja); BU b = mkSecond(a, jb, bmode == "alias" ? std::string("copy") : bmode);
 			AutBase::StateType states = AutBase::SanitizeAutsForInclusion(a, b);
 			BU u = BU::UnionDisjointStates(a, b);
 			SimParam sp;
@@ -135,10 +146,10 @@ VDRIVE_OP(bddincl)
 		});
 	}
 	// selections that are not implemented must say so
-	v["bu_dn"] = guarded("bu_dn", [&] { BU a, b; loadBdd(a, ja); loadBdd(b, jb); return BU::CheckInclusion(a, b, mkParam(true, false, false, false)); });
-	v["bu_dr"] = guarded("bu_dr", [&] { BU a, b; loadBdd(a, ja); loadBdd(b, jb); return BU::CheckInclusion(a, b, mkParam(true, true, false, false)); });
-	v["td_up"] = guarded("td_up", [&] { TD a, b; loadBdd(a, ja); loadBdd(b, jb); return TD::CheckInclusion(a, b, mkParam(false, false, false, false)); });
-	v["td_dn"] = guarded("td_dn", [&] { TD a, b; loadBdd(a, ja); loadBdd(b, jb); return TD::CheckInclusion(a, b, mkParam(true, false, false, false)); });
+	v["bu_dn"] = guarded("bu_dn", [&] { BU a; loadBdd(a, ja); BU bc = mkSecond(a, jb, bmode); const BU& b = (bmode == "alias") ? a : bc; return BU::CheckInclusion(a, b, mkParam(true, false, false, false)); });
+	v["bu_dr"] = guarded("bu_dr", [&] { BU a; loadBdd(a, ja); BU bc = mkSecond(a, jb, bmode); const BU& b = (bmode == "alias") ? a : bc; return BU::CheckInclusion(a, b, mkParam(true, true, false, false)); });
+	v["td_up"] = guarded("td_up", [&] { TD a; loadBdd(a, ja); TD bc = mkSecond(a, jb, bmode); const TD& b = (bmode == "alias") ? a : bc; return TD::CheckInclusion(a, b, mkParam(false, false, false, false)); });
+	v["td_dn"] = guarded("td_dn", [&] { TD a; loadBdd(a, ja); TD bc = mkSecond(a, jb, bmode); const TD& b = (bmode == "alias") ? a : bc; return TD::CheckInclusion(a, b, mkParam(true, false, false, false)); });
 	json res;
 	res["v"] = v;
 	return res;
